@@ -13,6 +13,7 @@ pub fn dispatch(cmd: &str, args: &Args) -> Option<i32> {
     Some(match cmd {
         "c13-gen" => match args.str("mode").unwrap_or("random") {
             "random" => gen_random(args),
+            "long" => gen_long(args),
             "small" => gen_small(args),
             "plain" => gen_plain(args),
             "replay" => replay(args),
@@ -544,6 +545,97 @@ fn gen_random(args: &Args) -> i32 {
     for i in 0..sets {
         let p = &profiles[if i % 3 == 2 { 1 } else { 0 }];
         let (calls, words) = gen_set(&mut r, p, nwords);
+        out.line(&event(&calls, &p.lc, &words, p.name));
+    }
+    0
+}
+
+// ------------------------------------------------------------------------------------------
+// long patterns: 14..40 letters with 1..3 digits, so that the zero runs of the packed op stream
+// fall around the chunk boundaries (15/16/17, 31/32/33), queried with words that embed them.
+// ------------------------------------------------------------------------------------------
+
+fn gen_long(args: &Args) -> i32 {
+    quiet_panics();
+    let seed: u64 = args.num("seed", 1);
+    let sets: usize = args.num("sets", 100);
+    let mut out = Out::new(args.str("out"));
+    let mut r = Rng::new(seed ^ 0x10_46);
+    let profiles = [profile_ascii(), profile_table()];
+    for i in 0..sets {
+        let p = &profiles[if i % 4 == 3 { 1 } else { 0 }];
+        let npat = r.range(1, 3) as usize;
+        let mut pats: Vec<Pat> = vec![];
+        let mut keys: HashSet<(bool, Vec<char>, bool)> = HashSet::new();
+        while pats.len() < npat {
+            let n = match r.below(4) {
+                0 => r.range(14, 19) as usize,
+                1 => r.range(30, 35) as usize,
+                _ => r.range(14, 40) as usize,
+            };
+            let letters = rand_letters(&mut r, p, n);
+            let mut digits: Vec<Option<u8>> = vec![None; n + 1];
+            let nd = r.range(1, 3);
+            for _ in 0..nd {
+                // favour gaps whose distance from the previous digit / the start is 14..18 or 30..34
+                let g = match r.below(3) {
+                    0 => r.range(14, 18).min(n as i64) as usize,
+                    1 => r.range(30, 34).min(n as i64) as usize,
+                    _ => r.below(n as u64 + 1) as usize,
+                };
+                digits[g] = Some(rand_digit(&mut r).max(1));
+            }
+            let pat = Pat { letters, digits, at_start: r.chance(1, 5), at_end: r.chance(1, 5) };
+            if keys.insert(pat.key()) {
+                pats.push(pat);
+            }
+        }
+        if r.chance(1, 2) {
+            // a short companion pattern competing at some positions
+            let n = r.range(1, 3) as usize;
+            let letters = rand_letters(&mut r, p, n);
+            let pat = Pat { digits: rand_digits(&mut r, n), letters, at_start: false, at_end: false };
+            if keys.insert(pat.key()) {
+                pats.push(pat);
+            }
+        }
+        let calls: Vec<Call> = if r.chance(1, 2) {
+            vec![Call { k: "p", t: pats.iter().map(|x| x.text()).collect::<Vec<_>>().join(" ") }]
+        } else {
+            pats.iter().map(|x| Call { k: "p", t: x.text() }).collect()
+        };
+        let mut words: Vec<String> = vec![];
+        let mut seen: HashSet<String> = HashSet::new();
+        for pat in pats.iter().filter(|x| x.letters.len() >= 14) {
+            for variant in 0..4 {
+                let n = pat.letters.len();
+                let room = 40 - n;
+                let (pre, post) = match variant {
+                    0 => (0, 0),
+                    1 => (r.below(room as u64 + 1) as usize, 0),
+                    2 => (0, r.below(room as u64 + 1) as usize),
+                    _ => {
+                        let a = r.below(room as u64 + 1) as usize;
+                        (a, r.below((room - a) as u64 + 1) as usize)
+                    }
+                };
+                // an anchored pattern is mostly given the chance to match
+                let pre = if pat.at_start && r.chance(4, 5) { 0 } else { pre };
+                let post = if pat.at_end && r.chance(4, 5) { 0 } else { post };
+                let mut v = rand_letters(&mut r, p, pre);
+                v.extend(pat.letters.iter());
+                v.extend(rand_letters(&mut r, p, post));
+                let st = match r.below(4) {
+                    0 | 1 => 0,
+                    2 => 1,
+                    _ => 3,
+                };
+                let w = mixed_case(&mut r, p, &v, st);
+                if seen.insert(w.clone()) {
+                    words.push(w);
+                }
+            }
+        }
         out.line(&event(&calls, &p.lc, &words, p.name));
     }
     0
